@@ -1,1 +1,172 @@
-//! Verification hooks: server (see verif/mod.rs).
+//! Verification hooks: the server reactor without sockets.
+//!
+//! `VerifServer` owns a real `CoreRef` and a real `CommSenderRef`; the per-worker outgoing queues
+//! are kept by the harness instead of a TCP connection. Every method calls the same production
+//! function that `server/rpc.rs` / `control.rs` / `scheduler/main.rs` call for the same event.
+use std::rc::Rc;
+use std::time::Instant;
+
+use bytes::Bytes;
+use tokio::sync::Notify;
+use tokio::sync::mpsc::{UnboundedReceiver, unbounded_channel};
+
+use crate::control::ServerRef;
+use crate::events::EventProcessor;
+use crate::gateway::LostWorkerReason;
+use crate::internal::messages::worker::{FromWorkerMessage, ToWorkerMessage};
+use crate::internal::scheduler::{SchedulerConfig, SchedulerResult, run_scheduling};
+use crate::internal::server::comm::{Comm, CommSenderRef};
+use crate::internal::server::core::CoreRef;
+use crate::internal::server::reactor::{
+    on_new_worker, on_remove_worker, on_retract_response, on_task_update,
+};
+use crate::internal::server::worker::Worker;
+use crate::internal::transfer::auth::deserialize;
+use crate::internal::worker::configuration::{WorkerConfiguration, sync_worker_configuration};
+use crate::{Map, WorkerId};
+
+pub struct VerifServer {
+    pub(crate) core_ref: CoreRef,
+    pub(crate) comm_ref: CommSenderRef,
+    receivers: Map<WorkerId, UnboundedReceiver<Bytes>>,
+}
+
+#[derive(Debug, Clone, Copy, PartialEq, Eq)]
+pub enum VerifSchedulerResult {
+    Done,
+    NeedMoreCompute,
+    NoProgress,
+}
+
+impl VerifServer {
+    pub fn new(
+        server_uid: String,
+        worker_id_initial_value: WorkerId,
+        scheduler_config: SchedulerConfig,
+    ) -> Self {
+        let comm_ref = CommSenderRef::new(Rc::new(Notify::new()), false);
+        let core_ref = CoreRef::new(
+            0,
+            None,
+            None,
+            None,
+            server_uid,
+            worker_id_initial_value,
+            scheduler_config,
+        );
+        VerifServer {
+            core_ref,
+            comm_ref,
+            receivers: Default::default(),
+        }
+    }
+
+    pub fn server_ref(&self) -> ServerRef {
+        ServerRef::verif_new(self.core_ref.clone(), self.comm_ref.clone())
+    }
+
+    pub fn set_client_events(&self, client_events: Box<dyn EventProcessor>) {
+        self.comm_ref.set_client_events(client_events);
+    }
+
+    /// Mirrors the registration part of `worker_rpc_loop`.
+    pub fn add_worker(&mut self, mut configuration: WorkerConfiguration, now: Instant) -> WorkerId {
+        let worker_id = self.core_ref.get_mut().new_worker_id();
+        sync_worker_configuration(&mut configuration, *self.core_ref.get().idle_timeout());
+        let (queue_sender, queue_receiver) = unbounded_channel::<Bytes>();
+        {
+            let mut core = self.core_ref.get_mut();
+            for item in &configuration.resources.resources {
+                core.get_or_create_resource_id(&item.name);
+            }
+            let worker = Worker::new(worker_id, configuration, &core.create_resource_map(), now);
+            on_new_worker(&mut core, &mut *self.comm_ref.get_mut(), worker);
+        }
+        self.comm_ref.get_mut().add_worker(worker_id, queue_sender);
+        self.receivers.insert(worker_id, queue_receiver);
+        worker_id
+    }
+
+    /// Mirrors one iteration of `worker_receive_loop` (messages that only touch heartbeats /
+    /// overviews are ignored).
+    pub fn deliver(&mut self, worker_id: WorkerId, message: FromWorkerMessage) {
+        let mut core = self.core_ref.get_mut();
+        let mut comm = self.comm_ref.get_mut();
+        match message {
+            FromWorkerMessage::TaskUpdate(updates) => {
+                on_task_update(&mut core, &mut *comm, worker_id, updates);
+            }
+            FromWorkerMessage::RetractResponse(msg) => {
+                on_retract_response(&mut core, &mut *comm, worker_id, &msg.retracted);
+            }
+            FromWorkerMessage::Notify(notify) => {
+                comm.client()
+                    .on_task_notify(notify.task_id, worker_id, notify.message);
+            }
+            FromWorkerMessage::Heartbeat
+            | FromWorkerMessage::Overview(_)
+            | FromWorkerMessage::Stop(_) => {}
+        }
+    }
+
+    /// Mirrors the end of `worker_rpc_loop`.
+    pub fn lose_worker(&mut self, worker_id: WorkerId, reason: LostWorkerReason) {
+        let mut core = self.core_ref.get_mut();
+        let mut comm = self.comm_ref.get_mut();
+        let reason = core
+            .get_worker(worker_id)
+            .stop_reason
+            .map(|(r, _)| r)
+            .unwrap_or(reason);
+        comm.remove_worker(worker_id);
+        self.receivers.remove(&worker_id);
+        on_remove_worker(&mut core, &mut *comm, worker_id, reason);
+    }
+
+    /// One scheduling round as `scheduler_loop` performs it.
+    pub fn run_scheduling(&mut self, now: Instant) -> VerifSchedulerResult {
+        let r = run_scheduling(
+            &mut self.core_ref.get_mut(),
+            &mut self.comm_ref.get_mut(),
+            now,
+        );
+        match r {
+            SchedulerResult::Done => VerifSchedulerResult::Done,
+            SchedulerResult::NeedMoreCompute => VerifSchedulerResult::NeedMoreCompute,
+            SchedulerResult::NoProgress => VerifSchedulerResult::NoProgress,
+        }
+    }
+
+    pub fn scheduling_flag(&self) -> bool {
+        self.comm_ref.get().get_scheduling_flag()
+    }
+
+    pub fn reset_scheduling_flag(&self) {
+        self.comm_ref.get_mut().reset_scheduling_flag()
+    }
+
+    /// Messages queued for a worker since the last call, in send order.
+    pub fn drain_messages(&mut self, worker_id: WorkerId) -> Vec<ToWorkerMessage> {
+        let mut result = Vec::new();
+        if let Some(rx) = self.receivers.get_mut(&worker_id) {
+            while let Ok(data) = rx.try_recv() {
+                result.push(deserialize(&data).expect("verif: cannot deserialize ToWorkerMessage"));
+            }
+        }
+        result
+    }
+
+    pub fn connected_workers(&self) -> Vec<WorkerId> {
+        let mut ids: Vec<WorkerId> = self.receivers.keys().copied().collect();
+        ids.sort();
+        ids
+    }
+
+    pub fn dump(&self, now: Instant) -> serde_json::Value {
+        self.core_ref.get().dump(now)
+    }
+
+    pub fn worker_counter(&self) -> u32 {
+        self.core_ref.get().worker_counter()
+    }
+}
